@@ -492,7 +492,7 @@ impl Lexer<'_> {
                     let idx = verif::cover_index(
                         verif::mode_index(mode),
                         self.checkpoint.is_some(),
-                        verif::char_class(next_char),
+                        verif::char_class(next_char, self.cursor.peek_next()),
                     );
                     if let Some(word) = self.verif.dispatch_cover.get_mut(idx / 64) {
                         *word |= 1 << (idx % 64);
